@@ -345,6 +345,21 @@ def make_h1c(description, scale):
     return make
 
 
+def _decimal_in_reachable(description, scale):
+    """is some k/10^scale inside the described range? (decides whether outcome class 'in' must be seen)"""
+    from cutplace import ranges
+    try:
+        rng = ranges.DecimalRange(description)
+    except Exception:  # noqa
+        return True
+    for k in range(-20000, 20001):
+        x = decimal.Decimal(k).scaleb(-scale)
+        for lo, hi in rng.items:
+            if (lo is None or x >= lo) and (hi is None or x <= hi):
+                return True
+    return False
+
+
 def native_decimal_checks():
     """concrete (no quantifier): items / limits of decimal descriptions through the real constructor"""
     from cutplace import ranges, errors
@@ -604,7 +619,8 @@ def build(tier, seed):
         for s in scales:
             queries.append(Query("C01/H1c/%s/scale%d" % (d, s), "H1c", make_h1c(d, s),
                                  "DecimalRange(%r), value k/10^%d for all |k| < 10^6" % (d, s), budget_s=120,
-                                 expect=("in", "out"), functions=FUNCS, stubs=("S-FMT",)))
+                                 expect=("in", "out") if _decimal_in_reachable(d, s) else ("out",), functions=FUNCS,
+                                 stubs=("S-FMT",)))
     # H1d sweep
     sw = sweep_descriptions()
     chunk = 120
